@@ -10,7 +10,7 @@ man["hooks"]["source_commits"] = [h.split()[0] for h in reversed(hooks)]
 checks, na = [], []
 for pid in sorted(REG):
     r = REG[pid]
-    if os.path.exists(os.path.join(V, "checks", pid.lower() + ".py")) and not r.get("disabled"):
+    if os.path.exists(os.path.join(V, "checks", pid.lower() + ".py")) and r.get("text") and not r.get("disabled"):
         checks.append({
             "property_id": pid,
             "quick_cmd": "./check %s --tier quick" % pid,
